@@ -68,13 +68,26 @@ func (c *zzMemCache) Delete(id string) error {
 	return nil
 }
 
-// zzRegistry is the registry side: it serves the package stream.
-type zzRegistry struct{ inits int }
+// zzRegistry is the registry side: it serves the package stream. The next
+// stream may break off with an error after failAfter bytes.
+type zzRegistry struct {
+	inits     int
+	failNext  bool
+	failAfter int
+}
 
 func (b *zzRegistry) Init(context.Context, ...parser.BackendOption) (io.ReadCloser, error) {
 	b.inits++
+	if b.failNext {
+		b.failNext = false
+		return io.NopCloser(io.MultiReader(strings.NewReader(zzStream[:b.failAfter]), zzErrReader{})), nil
+	}
 	return io.NopCloser(strings.NewReader(zzStream)), nil
 }
+
+type zzErrReader struct{}
+
+func (zzErrReader) Read([]byte) (int, error) { return 0, errors.New("connection reset by peer") }
 
 // zzStreamParser reads the whole stream, closes it, and parses it: only the
 // complete stream is a package.
@@ -105,7 +118,7 @@ func (p *zzStreamParser) Parse(_ context.Context, rc io.ReadCloser) (*parser.Pac
 // is served by the cache or pulls again - installs exactly the same objects.
 //
 //gosym:harness latego
-//gosym:cover cache-write-failed cache-hit pulled-again
+//gosym:cover cache-write-failed cache-hit pulled-again registry-stream-broke-off
 func HarnessC15Cache() {
 	s := kube.New()
 	s.Register(&v1.ProviderRevision{}, &v1.ProviderRevisionList{}, "pkg.crossplane.io", "ProviderRevision")
@@ -130,6 +143,13 @@ func HarnessC15Cache() {
 	failing := cache.failNext && !warm
 
 	img := &zzRegistry{}
+	// the registry connection may break while the first reconcile streams the image
+	if !warm && !cache.failNext && zz.Bool("registry.streamBreaksOff") {
+		img.failNext = true
+		img.failAfter = []int{0, 5, len(zzStream) - 1}[zz.Choose("registry.bytesDelivered", 3)]
+		zz.Cover("registry-stream-broke-off")
+	}
+	broken := img.failNext
 	ps := &zzStreamParser{pkg: pkg}
 	est := &zzEstablisher{}
 	r := NewReconciler(&zzMgr15{c: s},
@@ -147,8 +167,13 @@ func HarnessC15Cache() {
 	req := reconcile.Request{NamespacedName: types.NamespacedName{Name: "rev"}}
 
 	_, err := r.Reconcile(context.Background(), req)
-	zz.Assert("first-reconcile-no-error", err == nil)
-	zz.Assert("first-reconcile-installs-the-packages-objects", est.calls == 1 && len(est.objects) == 1 && est.objects[0] == objs[0])
+	if broken {
+		zz.Assert("broken-stream-is-an-error", err != nil)
+		zz.Assert("broken-stream-installs-nothing", est.calls == 0)
+	} else {
+		zz.Assert("first-reconcile-no-error", err == nil)
+		zz.Assert("first-reconcile-installs-the-packages-objects", est.calls == 1 && len(est.objects) == 1 && est.objects[0] == objs[0])
+	}
 	if failing {
 		zz.Cover("cache-write-failed")
 	}
